@@ -709,6 +709,11 @@ class BaseSection(base.Sectionable):
                        as well as most attributes of merged Properties on the same
                        tree level in source and destination have to be identical.
         """
+        # Only a Section can be the source: a Property without values iterates
+        # like an empty container and would be recorded as the merged object.
+        if not isinstance(source_section, BaseSection):
+            raise ValueError("odml.Section.merge: Section object expected as source!")
+
         # Merging changes self and its subsections while it reads from the source;
         # both trees must not overlap.
         for node, other in ((self, source_section), (source_section, self)):
